@@ -55,9 +55,10 @@ def _candidates(s):
         yield c
     # commands
     idx = 0
+    aliased = any(g.get("alias") is not None for g in s["groups"])   # group indices are referenced: keep every group
     for gi, g in enumerate(s["groups"]):
         for ci in range(len(g["cmds"])):
-            if sum(len(x["cmds"]) for x in s["groups"]) > 1:
+            if sum(len(x["cmds"]) for x in s["groups"]) > 1 and not (aliased and len(g["cmds"]) == 1):
                 c = S.clone(s)
                 del c["groups"][gi]["cmds"][ci]
                 if not c["groups"][gi]["cmds"]:
@@ -66,7 +67,7 @@ def _candidates(s):
                 yield c
             idx += 1
     # merge groups
-    if len(s["groups"]) > 1 and not any(g["disable"] for g in s["groups"]):
+    if len(s["groups"]) > 1 and not aliased and not any(g["disable"] for g in s["groups"]):
         c = S.clone(s)
         c["groups"] = [dict(name=None, disable=0, cmds=[x for g in c["groups"] for x in g["cmds"]])]
         yield c
